@@ -4,6 +4,7 @@ import (
 	"bytes"
 	"encoding/json"
 	"fmt"
+	"io"
 	"math/rand"
 	"sort"
 	"strings"
@@ -109,6 +110,32 @@ func snapReader(r *reader.Reader, keys []string) snap {
 	return s
 }
 
+// drivers that report which format options reached them
+type c18Serializer struct{}
+
+func (c18Serializer) Serialize(d *sbom.Document, _ *native.SerializeOptions, fo interface{}) (interface{}, error) {
+	return map[string]string{"serialize_got": anyStr(fo)}, nil
+}
+
+func (c18Serializer) Render(doc interface{}, w io.Writer, _ *native.RenderOptions, fo interface{}) error {
+	m := doc.(map[string]string)
+	_, err := fmt.Fprintf(w, `{"serialize_got":%q,"render_got":%q}`, m["serialize_got"], anyStr(fo))
+	return err
+}
+
+type c18Unserializer struct{}
+
+func (c18Unserializer) Unserialize(r io.Reader, _ *native.UnserializeOptions, fo interface{}) (*sbom.Document, error) {
+	d := sbom.NewDocument()
+	d.Metadata.Comment = anyStr(fo)
+	return d, nil
+}
+
+var (
+	c18SerKey   = fmt.Sprintf("%T", &c18Serializer{})
+	c18UnserKey = fmt.Sprintf("%T", &c18Unserializer{})
+)
+
 // ProbeDefaults observes the defaults in a fresh process (first constructor call).
 func ProbeDefaults() (w, r map[string]string) {
 	return snapWriter(writer.New(), nil), snapReader(reader.New(), nil)
@@ -131,8 +158,8 @@ func genC18(verifSeed int64, tier string, idx int) *core.Scenario {
 		panic(err)
 	}
 	sp.Streams = append(sp.Streams, b64(b))
-	wopts := []string{"format", "render", "serialize", "fmtopts", "storeopts"}
-	ropts := []string{"fmtopts", "unserialize", "retrieve"}
+	wopts := []string{"format", "render", "serialize", "fmtopts", "storeopts", "drvopts"}
+	ropts := []string{"fmtopts", "unserialize", "retrieve", "drvopts"}
 	call := 0
 	for t := 0; t < ntasks; t++ {
 		n := 3 + r.Intn(10)
@@ -155,9 +182,12 @@ func genC18(verifSeed int64, tier string, idx int) *core.Scenario {
 						}
 					}
 				}
-				if r.Intn(2) == 0 {
+				switch r.Intn(5) {
+				case 0, 1:
 					op.F = c18RealFormats[r.Intn(3)]
-				} else {
+				case 2:
+					op.F = fmtPrivA // served by the reporting driver
+				default:
 					op.F = fmt.Sprintf("application/x-verif-i%d+json;version=1", call)
 				}
 				ops = append(ops, op)
@@ -182,8 +212,12 @@ func genC18(verifSeed int64, tier string, idx int) *core.Scenario {
 				ops = append(ops, Op{K: "WWrite", D: r.Intn(nw)})
 			case k < 9 && nw > 0:
 				ops = append(ops, Op{K: "WWriteOpt", D: r.Intn(nw), F: c18RealFormats[r.Intn(3)], I: 1 + r.Intn(7)})
-			case nr > 0:
+			case nr > 0 && r.Intn(2) == 0:
 				ops = append(ops, Op{K: "RParseOpt", D: r.Intn(nr), F: c18RealFormats[r.Intn(3)]})
+			case nr > 0:
+				ops = append(ops, Op{K: "RDrv", D: r.Intn(nr), I: call*2 + r.Intn(2)})
+			case nw > 0:
+				ops = append(ops, Op{K: "WDrv", D: r.Intn(nw), I: call*2 + r.Intn(2)})
 			}
 		}
 		// always end by observing everything
@@ -335,7 +369,10 @@ func execC18(sc *core.Scenario) *core.Result {
 			}
 		}
 	}
-	env.keys = append(env.keys, "never-set")
+	env.keys = append(env.keys, "never-set", c18SerKey, c18UnserKey)
+	// reporting drivers under a private format (registered before any task exists)
+	writer.RegisterSerializer(formats.Format(fmtPrivA), &c18Serializer{})
+	reader.RegisterUnserializer(formats.Format(fmtPrivA), &c18Unserializer{})
 	for range sp.Tasks {
 		env.tasks = append(env.tasks, &c18task{probes: map[string]int{}})
 	}
@@ -400,6 +437,9 @@ func (env *c18env) mkOp(rec *opRec) func() string {
 				case "fmtopts":
 					opts = append(opts, writer.WithFormatOptions(fmt.Sprintf("key-%d", op.I), fmt.Sprintf("val-%d", op.I)))
 					model[fmt.Sprintf("fmtopt:key-%d", op.I)] = fmt.Sprintf("val-%d", op.I)
+				case "drvopts":
+					opts = append(opts, writer.WithFormatOptions(c18SerKey, fmt.Sprintf("inst-%d", op.I)))
+					model["fmtopt:"+c18SerKey] = fmt.Sprintf("inst-%d", op.I)
 				case "storeopts":
 					opts = append(opts, writer.WithStoreOptions(&storage.StoreOptions{NoClobber: op.I%2 == 0, BackendOptions: fmt.Sprintf("be-%d", op.I)}))
 					model["StoreOptions"] = fmt.Sprintf("noclobber=%v backend=be-%d", op.I%2 == 0, op.I)
@@ -433,6 +473,9 @@ func (env *c18env) mkOp(rec *opRec) func() string {
 				case "fmtopts":
 					opts = append(opts, reader.WithFormatOptions(fmt.Sprintf("key-%d", op.I), fmt.Sprintf("val-%d", op.I)))
 					model[fmt.Sprintf("fmtopt:key-%d", op.I)] = fmt.Sprintf("val-%d", op.I)
+				case "drvopts":
+					opts = append(opts, reader.WithFormatOptions(c18UnserKey, fmt.Sprintf("inst-%d", op.I)))
+					model["fmtopt:"+c18UnserKey] = fmt.Sprintf("inst-%d", op.I)
 				case "unserialize":
 					opts = append(opts, reader.WithUnserializeOptions(&native.UnserializeOptions{}))
 					model["UnserializeOptions"] = "set"
@@ -491,6 +534,19 @@ func (env *c18env) mkOp(rec *opRec) func() string {
 			s := &sink{}
 			err := in.w.WriteStream(env.doc, s)
 			want := in.model["Format"]
+			if want == fmtPrivA && err == nil {
+				// the reporting driver tells which format options the instance handed to it
+				t.probes["instance-level write through the reporting driver"]++
+				var got struct {
+					S string `json:"serialize_got"`
+					R string `json:"render_got"`
+				}
+				json.Unmarshal(s.Bytes(), &got)
+				if exp := in.model["fmtopt:"+c18SerKey]; got.S != exp || got.R != exp {
+					t.violate("leak:writer:formatOptions:driver-got-other", fmt.Sprintf("writer #%d has format options %q for its driver but the driver received %q (Serialize) and %q (Render)", in.call, exp, got.S, got.R))
+				}
+				return "drv:" + got.S
+			}
 			real := false
 			for _, f := range c18RealFormats {
 				if f == want {
@@ -541,6 +597,65 @@ func (env *c18env) mkOp(rec *opRec) func() string {
 				if got, want := indentOf(s.Bytes()), indentOf(ref); got != want {
 					t.violate("leak:writer:RenderOptions:per-call", fmt.Sprintf("per-call indent %d on writer #%d produced indentation %d, the driver alone gives %d", op.I, in.call, got, want))
 				}
+			}
+			if before != "ok" {
+				return before
+			}
+			return env.observe(t, in, "percall")
+		}
+	case "WDrv":
+		return func() string {
+			if len(t.writers) == 0 {
+				return "none"
+			}
+			in := t.writers[op.D%len(t.writers)]
+			before := env.observe(t, in, "later")
+			o := &writer.Options{Format: formats.Format(fmtPrivA), RenderOptions: &native.RenderOptions{Indent: 1}, SerializeOptions: &native.SerializeOptions{}}
+			exp := "<nil>"
+			if op.I%2 == 1 {
+				exp = fmt.Sprintf("call-%d", op.I)
+				o.SetFormatOptions(c18SerKey, exp)
+			}
+			s := &sink{}
+			if err := in.w.WriteStreamWithOptions(env.doc, s, o); err != nil {
+				t.violate("leak:writer:formatOptions:per-call", fmt.Sprintf("per-call write through the reporting driver failed: %v", err))
+				return "err"
+			}
+			var got struct {
+				S string `json:"serialize_got"`
+				R string `json:"render_got"`
+			}
+			json.Unmarshal(s.Bytes(), &got)
+			t.probes["per-call format options through the reporting driver"]++
+			if got.S != exp || got.R != exp {
+				t.violate("leak:writer:formatOptions:per-call", fmt.Sprintf("per-call format options %q on writer #%d: the driver received %q (Serialize) and %q (Render)", exp, in.call, got.S, got.R))
+			}
+			if before != "ok" {
+				return before
+			}
+			return env.observe(t, in, "percall")
+		}
+	case "RDrv":
+		return func() string {
+			if len(t.readers) == 0 {
+				return "none"
+			}
+			in := t.readers[op.D%len(t.readers)]
+			before := env.observe(t, in, "later")
+			o := &reader.Options{Format: formats.Format(fmtPrivA), UnserializeOptions: &native.UnserializeOptions{}}
+			exp := "<nil>"
+			if op.I%2 == 1 {
+				exp = fmt.Sprintf("call-%d", op.I)
+				o.SetFormatOptions(c18UnserKey, exp)
+			}
+			d, err := in.r.ParseStreamWithOptions(bytes.NewReader(env.stream), o)
+			if err != nil || d == nil || d.Metadata == nil {
+				t.violate("leak:reader:formatOptions:per-call", fmt.Sprintf("per-call parse through the reporting driver failed: %v", err))
+				return "err"
+			}
+			t.probes["per-call format options through the reporting driver"]++
+			if got := d.Metadata.Comment; got != exp {
+				t.violate("leak:reader:formatOptions:per-call", fmt.Sprintf("per-call format options %q on reader #%d (whose own are %q): the driver received %q", exp, in.call, in.model["fmtopt:"+c18UnserKey], got))
 			}
 			if before != "ok" {
 				return before
